@@ -507,6 +507,8 @@ func main() {
 		dagScenario("LA_RAB_LB", false, wr(A), rd(A, B), wr(B)),
 		dagScenario("LB_RAB_RBC", false, wr(B), rd(A, B), rd(B, C)),
 		dagScenario("RAB_RAB_LA", false, rd(A, B), rd(A, B), wr(A)),
+		dagScenario("duplicate-id-RABA_LA", false, rd(A, B, A), wr(A)),
+		dagScenario("duplicate-id-RAA_LA_RA", false, rd(A, A), wr(A), rd(A)),
 		dagScenario("nested-LA.LB_RAB", false, wr(A, B), rd(A, B)),
 		dagScenario("nested-LA.LB_RAB_LB", false, wr(A, B), rd(A, B), wr(B)),
 		dagScenario("nested-LA.LC_RAB_RBC", false, wr(A, C), rd(A, B), rd(B, C)),
